@@ -120,21 +120,21 @@ func c09IsAncestor(anc, desc string) bool {
 }
 
 type c09Knobs struct {
-	Mix      string // single | stops | stops+spawn | stops+restart | all | system-stop
-	Roots    int
-	Depth    int
-	Width    int
-	Workers  int
-	OpsEach  int
-	Procs    int
-	Noise    int
+	Mix     string // single | stops | stops+spawn | stops+restart | all | system-stop | hammer (every worker stops the same node)
+	Roots   int
+	Depth   int
+	Width   int
+	Workers int
+	OpsEach int
+	Procs   int
+	Noise   int
 }
 
 func (k c09Knobs) String() string {
 	return fmt.Sprintf("mix=%s roots=%d depth=%d width=%d workers=%d ops=%d procs=%d noise=%d", k.Mix, k.Roots, k.Depth, k.Width, k.Workers, k.OpsEach, k.Procs, k.Noise)
 }
 
-var c09Mixes = []string{"single", "stops", "stops+spawn", "stops+restart", "all", "system-stop", "stops", "single"}
+var c09Mixes = []string{"single", "stops", "stops+spawn", "stops+restart", "all", "system-stop", "hammer", "single"}
 
 func c09GenKnobs(rng *rand.Rand, i int) c09Knobs {
 	return c09Knobs{
@@ -578,10 +578,16 @@ func c09RunCase(t *testing.T, k c09Knobs, seed int64) (obs c09Obs) {
 	}
 	plans := make([][]planned, workers)
 	pick := func() *c09Node { return static[rng.Intn(len(static))] }
+	hammered := pick()
 	for w := 0; w < workers; w++ {
 		for o := 0; o < k.OpsEach; o++ {
 			kind := stopKinds[rng.Intn(len(stopKinds))]
 			tgt := pick()
+			if k.Mix == "hammer" {
+				// all workers stop one and the same name again and again (the lookups race its removal)
+				plans[w] = append(plans[w], planned{[]string{"kill", "kill", "stop-by-parent", "shutdown"}[rng.Intn(4)], hammered})
+				continue
+			}
 			// make overlapping subtrees likely: every second worker takes an ancestor or a
 			// descendant of the previous worker's target
 			if w > 0 && rng.Intn(2) == 0 && len(plans[w-1]) > 0 {
